@@ -144,7 +144,13 @@ def table(mod, name: str):
     try:
         return ev(mod.const(name), mod)
     except NotLiteral as e:
-        raise AnalysisError(f"{mod.rel}:{name} is no longer a literal table ({e})")
+        # a table built with small pure helpers (list repetition, comprehension): evaluate it with the
+        # decision-list interpreter; anything else is an idiom change
+        from . import dl
+        try:
+            return dl.Interp(mod).expr(mod.const(name), {})
+        except (dl.Unsupported, dl.Raised) as e2:
+            raise AnalysisError(f"{mod.rel}:{name} is no longer an evaluable table ({e}; {e2})")
 
 
 def try_ev(node, mod=None, env=None, default=None):
